@@ -9,7 +9,7 @@ EXTENDS Naturals, Integers, Sequences, FiniteSets, TLC, Json, IOUtils
 
 ProgsIn == ndJsonDeserialize(IOEnv.PROGS)
 
-INSTANCE Shuttle WITH Progs <- ProgsIn, TrackWoken <- FALSE
+INSTANCE Shuttle WITH Progs <- ProgsIn, TrackWoken <- FALSE, SpuriousWakeups <- FALSE
 
 VARIABLES S
 vars == <<S>>
@@ -22,8 +22,11 @@ Record(res, s, t) ==
   IF NextOp(s, t).k = "ret" THEN res.s
   ELSE [res.s EXCEPT !.obs[s.ix[t+1] + 1] = Append(@, res.r)]
 
+\* the execution is over as soon as no task is able to progress: a merely parked task may wake
+\* spuriously only while the execution is still alive
 Next ==
   /\ S.panicked = ""
+  /\ ~Ends(S)
   /\ \E t \in Live(S) :
        \/ CanComplete(S, t) /\ S' = Record(Complete(S, t), S, t)
        \/ CanBlock(S, t) /\ S' = Block(S, t)
